@@ -99,6 +99,11 @@ def run(check, prog):
     # constraints included (rule shared with C15)
     from . import c15
     c15.r5_model(check, prog)
+    # `minus infinity whenever a value lies outside its prior's support`: the log-
+    # prior is the sum of the priors' own log-densities, so each of them is -inf
+    # exactly outside its bounds (rule shared with C14)
+    from . import c14
+    c14.r1_support(check, prog)
 
 
 def model_constructor_wiring(check, prog):
